@@ -22,7 +22,7 @@ from pyglove.core.typing import value_specs as vs
 from pyglove.core.typing import class_schema as cs
 from pyvc.contracts import Contract, register, spec, direct
 from pyvc.spec import implies, iff, ite
-from pyvc.values import SBool, SInt, SObj, SAny, SSeq, ExcVal, SChoice, simplify_concrete
+from pyvc.values import SBool, SInt, SObj, SAny, SSeq, ExcVal, SChoice, simplify_concrete, PList as PList3
 from pyvc import interp as I, axioms, absobj
 
 SB = 'pyglove.core.symbolic.base'
@@ -435,3 +435,77 @@ class DictPopItemTyped(Contract):
         if dict(d.sym_items()) != before:
           bad.append(f'{name}: popitem() raised but changed the dict')
     return dict(outcome='reproduced' if bad else 'not-reproduced', detail='; '.join(bad) or 'refused, nothing removed')
+
+
+# ---------------------------------------------------------------------------
+# Schema.get_field: the field that checks a key on WRITE (setitem, setattr,
+# update, setdefault, rebind all look the field up here) is the field that
+# checks it on construction / apply (`Schema.resolve`): the constant key's own
+# field, else the field of the FIRST key spec in declaration order whose pattern
+# matches -- also after an extension put an inherited pattern in front of the
+# schema's own one.  Shape-bounded: three key specs; whether the key is a
+# declared constant key and which patterns match it are Boolean unknowns.
+
+CSM = 'pyglove.core.typing.class_schema'
+_MATCH = [z3.Bool(f'pattern{i}_matches_key') for i in range(3)]
+
+
+@register
+class SchemaGetFieldFirstMatchInDeclarationOrder(Contract):
+  prop = 'C03'
+  bounded = True       # stated bound: three key specs
+  target = f'{CSM}:Schema.get_field'
+  raises = {Exception: ()}
+  variants = ('nonconst-keys-allowed', 'const-keys-only')
+
+  def inputs(self, b):
+    self._ks = [SAny(f'key_spec{i}', label=f'ks{i}') for i in range(3)]
+    self._fd = [SAny(f'field{i}', label=f'field{i}') for i in range(3)]
+    for i in range(3):
+      self._fd[i].memo[('attr', 'key')] = self._ks[i]
+    fields = SAny('fields', label='fields')
+    # the schema's own pattern field is the LAST one (an inherited pattern precedes it)
+    self_ = SObj(cs.Schema, {'_fields': fields, '_allow_nonconst_keys': self.variant == 'nonconst-keys-allowed',
+                             '_dynamic_field': self._fd[2]}, name='self')
+    return dict(self=self_, key=SAny('key', label='key')), {}
+
+  def setup_policy(self, policy):
+    me = self
+
+    def call_opaque(interp, fn, args, kwargs, frame):
+      name = fn.tag.rsplit('.', 1)[-1]
+      if fn.label == 'fields' and name == 'items':
+        return PList3([(me._ks[i], me._fd[i]) for i in range(3)])
+      if fn.label == 'fields' and name in ('keys', 'values'):
+        return PList3(list(me._ks if name == 'keys' else me._fd))
+      if fn.label and fn.label.startswith('ks') and name == 'match':
+        return SBool(_MATCH[int(fn.label[2:])])
+      return NotImplemented
+    policy.handlers[('call_opaque',)] = call_opaque
+
+  def trace_field_of_the_first_matching_key_spec(self, events, outcome, interp, env):
+    if outcome[0] != 'return':
+      return False
+    r = interp.resolve(outcome[1])
+    if isinstance(r, SAny) and r.tag.startswith('fields['):
+      return True                     # the declared constant key's own field
+    if r is None:
+      return z3.Not(z3.Or(*_MATCH)) if self.variant == 'nonconst-keys-allowed' else True
+    idx = [i for i in range(3) if r is self._fd[i]]
+    if len(idx) != 1 or self.variant != 'nonconst-keys-allowed':
+      return False
+    i = idx[0]
+    return z3.And(_MATCH[i], *[z3.Not(_MATCH[j]) for j in range(i)])
+
+  def replay(self, obligation, m):
+    t = pg.typing
+    base_spec = t.Dict([(t.StrKey('a.*'), t.Int())])
+    child = t.Dict([(t.StrKey('.*b'), t.Str())])
+    child.extend(base_spec)
+    sch = child.schema
+    order = [str(k) for k in sch.keys()]
+    by_resolve = next(iter(sch.resolve(['ab'])[0].items()), (None, []))[0]
+    by_get = sch.get_field('ab').key
+    bad = by_resolve is not by_get
+    return dict(outcome='reproduced' if bad else 'not-reproduced',
+                detail=f'schema with patterns {order}: key "ab" is checked on construction by {by_resolve}, on write by {by_get}')
